@@ -477,8 +477,15 @@ func run(c *vm.Ctx) {
 	tcfg.MaxArray = 12
 	tcfg.LongString = false
 	tg := nbtgen.New(tr, tcfg)
+	bcfg := tcfg // now and then texts with quoted strings of 255..32767 bytes, long keys and arrays of a few hundred elements
+	bcfg.MaxArray, bcfg.LongString = 400, true
+	tgBig := nbtgen.New(tr, bcfg)
 	for i := 0; i < c.Scale(30000, 600000); i++ {
 		c.Tick()
+		if i%40 == 39 {
+			t2b(c, tr, tgBig, i)
+			continue
+		}
 		t2b(c, tr, tg, i)
 	}
 	floatEdges(c, c.Rand("float-edges"), c.Scale(4000, 80000))
